@@ -183,13 +183,14 @@ func TestVerifSCReplay(t *testing.T) {
 		rec.out.Emit(map[string]interface{}{"ev": "begin", "i": n, "vec": json.RawMessage(raw)})
 		rec.out.Flush()
 		variant := n % 3
+		thr := []float64{DefaultConfidenceThreshold, 1.0, 0.5}[(n/3)%3] // a verbatim copy scores exactly 1.0: it passes every threshold
 		var c *Classifier
 		sep := " "
 		if variant == 1 {
-			c = New(DefaultConfidenceThreshold, FlattenWhitespace)
+			c = New(thr, FlattenWhitespace)
 			sep = " \n\t "
 		} else {
-			c = New(DefaultConfidenceThreshold)
+			c = New(thr)
 		}
 		cid := fmt.Sprintf("r%d", n)
 		rec.out.Emit(map[string]interface{}{"ev": "reset", "keepmemo": false}) // keeps the trace spec's state small
@@ -211,6 +212,13 @@ func TestVerifSCReplay(t *testing.T) {
 		for k, val := range v.Vals {
 			rec.nm(c, cid, scJoin(variant, val, sep), []string{fmt.Sprintf("k%d", k+1)}, "")
 		}
+		// a value registered AFTER the first query is found by the next one, and so are the old ones
+		late := "yy zz yy"
+		rec.add(c, cid, "late", late)
+		u2 := scJoin(variant, v.U, " ") + " xx " + late
+		p2 := append([]map[string]interface{}(nil), plants...)
+		p2 = append(p2, map[string]interface{}{"name": "late", "off": len(scJoin(variant, v.U, " ")) + 4, "ext": len(late)})
+		rec.mm(c, cid, u2, p2, "")
 		rec.out.Emit(map[string]interface{}{"ev": "end", "i": n})
 		return true
 	})
@@ -250,7 +258,7 @@ func TestVerifSCTrace(t *testing.T) {
 			vals = append(vals, strings.Join(ws, " ")+fmt.Sprintf(" uniq%c", 'a'+k)) // a unique last word: no value occurs inside another
 		}
 		flatten := rng.Intn(2) == 0
-		thr := []float64{0.5, 0.8, 0.95}[rng.Intn(3)]
+		thr := []float64{0.5, 0.8, 0.95, 1.0}[rng.Intn(4)]
 		ncopies := 1 + rng.Intn(3)
 		var parts []string
 		var plantIdx []int
@@ -302,6 +310,12 @@ func TestVerifSCTrace(t *testing.T) {
 		for k, v := range vals {
 			rec.nm(c, cid, v, []string{fmt.Sprintf("k%d", k+1)}, "")
 		}
+		// register one more value after the first queries, then look for all of them again
+		lateVal := "lateword one two three uniqlate"
+		rec.add(c, cid, "klate", lateVal)
+		lp := append([]map[string]interface{}(nil), plants...)
+		lp = append(lp, map[string]interface{}{"name": "klate", "off": sb.Len() + 1, "ext": len(c.normalize(lateVal))})
+		rec.mm(c, cid, sb.String()+" "+c.normalize(lateVal), lp, "")
 		// arbitrary unknowns: confidences and bounds only
 		rec.mm(c, cid, strings.Join(parts, " ")+" "+vals[0][:len(vals[0])/2], nil, "")
 		rec.nm(c, cid, vals[0][:len(vals[0])*3/4]+" zzqx", nil, "")
